@@ -7,6 +7,8 @@
     covers them by search. *)
 From Age Require Import Conc ConcFacts.
 From AgeGen Require Import Effects.
+From Coq Require Import List.
+Import ListNotations.
 
 (** If no thread writes a shared location there is no pair of conflicting
     accesses at all: no data race, whatever the interleaving. *)
